@@ -88,23 +88,23 @@ ExtDo(a, newExt) ==
 \* ---------------------------------------------------------------- user / block actions
 Begin == /\ ~hub.inb /\ hub.h < MaxBlocks
          /\ \E dt \in {1, 101} : Do([k |-> "Begin", i |-> 0, dt |-> dt])
-         /\ UNCHANGED xw
+         /\ xw' = XwObserve(xw, hub')
 End   == /\ hub.inb
          /\ Do([k |-> "End", i |-> 0])
-         /\ UNCHANGED xw
+         /\ xw' = XwObserve(xw, hub')
 
 Send == /\ hub.inb /\ \A c \in SendChains : hub.ch[c].txid < MaxSends
         /\ \E from \in Users, c \in SendChains, d \in Denoms, amt \in Amts, fee \in Fees, dest \in {"e5"} :
               Do([k |-> "Send", i |-> 0, from |-> from, chain |-> c, dest |-> dest, denom |-> d, amt |-> amt, fee |-> fee])
-        /\ UNCHANGED xw
+        /\ xw' = XwObserve(xw, hub')
 Cancel == /\ hub.inb
           /\ \E from \in Users, c \in SendChains : \E id \in 1..hub.ch[c].txid :
                 Do([k |-> "Cancel", i |-> 0, from |-> from, chain |-> c, id |-> id])
-          /\ UNCHANGED xw
+          /\ xw' = XwObserve(xw, hub')
 ReqBatch == /\ hub.inb
             /\ \E c \in SendChains, d \in Denoms :
                   Do([k |-> "ReqBatch", i |-> 0, from |-> "a1", chain |-> c, denom |-> d])
-            /\ UNCHANGED xw
+            /\ xw' = XwObserve(xw, hub')
 
 \* ---------------------------------------------------------------- external world
 NextNonce(c) == Len(xw[c].log) + 1
@@ -122,9 +122,8 @@ ExtDeposit ==
 \* a relayer executes a stored batch on the external chain (any not yet superseded nonce, before its timeout)
 ExtExec ==
     /\ ~hub.inb
-    /\ \E c \in (SendChains \cup DepDests) \ {"hub"} : \E b \in hub.ch[c].bat :
-         /\ b.n > xw[c].lbn[b.tok]
-         /\ c = "minter" \/ xw[c].h + 1 < b.to
+    /\ \E c \in (SendChains \cup DepDests) \ {"hub"} : \E b \in (IF c = "minter" THEN hub.ch[c].bat ELSE xw[c].pub) :
+         /\ ContractAccepts(xw, c, b)
          /\ LET ev == [t |-> "Exec", n |-> NextNonce(c), tok |-> b.tok, bn |-> b.n, eh |-> xw[c].h + 1,
                        txh |-> "x" \o ToString(cnt + 1), fp |-> 1, fpr |-> "e9"]
                 paid == SumOver(b.txs, LAMBDA tr : tr.a)
@@ -156,7 +155,7 @@ AttestNext ==
                /\ bad' = StepChecks(g, hub, a1, [out |-> r1.out, id |-> 0], r1.s)
                          \cup StepChecks(g, r1.s, a2, [out |-> r2.out, id |-> 0], r2.s)
                          \cup StepChecks(g, r2.s, a3, [out |-> r3.out, id |-> 0], r3.s)
-    /\ UNCHANGED xw
+    /\ xw' = XwObserve(xw, hub')
 
 \* ---------------------------------------------------------------- attest family: fine grained claims
 ClaimEvents(c) ==
@@ -165,7 +164,7 @@ ClaimOne ==
     /\ hub.inb
     /\ \E by \in Vals \cup {"a1"}, ev \in ClaimEvents("ethereum") :
           Do([k |-> "Claim", i |-> 0, by |-> by, chain |-> "ethereum", ev |-> ev])
-    /\ UNCHANGED xw
+    /\ xw' = XwObserve(xw, hub')
 \* voting power changes take effect in the staking end blocker (modelled as part of the End step input)
 StakeChange ==
     /\ hub.inb
@@ -186,7 +185,7 @@ SetKeys ==
               sigkey |-> IF variant = "wrongkey" THEN "e9" ELSE e,
               sigseq |-> IF variant = "stale" THEN -1 ELSE 0,
               sigval |-> IF variant = "wrongval" THEN (CHOOSE w \in Vals : w # v) ELSE v])
-    /\ UNCHANGED xw
+    /\ xw' = XwObserve(xw, hub')
 TxRefs(c) == {[t |-> "ss", n |-> x.n] : x \in hub.ch[c].ss} \cup {[t |-> "bat", tok |-> b.tok, n |-> b.n] : b \in hub.ch[c].bat}
                 \cup {[t |-> "ss", n |-> 9]}
 Confirm ==
@@ -194,7 +193,7 @@ Confirm ==
     /\ \E by \in Vals \cup Orchs \cup {"a1"}, c \in KeyChains : \E tx \in TxRefs(c), e \in Exts \cup {"zero"}, key \in {"same", "e9"} :
           Do([k |-> "Confirm", i |-> 0, by |-> by, chain |-> c, tx |-> tx, ext |-> e,
               key |-> IF key = "same" /\ e # "zero" THEN e ELSE "e9"])
-    /\ UNCHANGED xw
+    /\ xw' = XwObserve(xw, hub')
 
 \* a confirmation that should be accepted: a bonded validator with a key (or its orchestrator) signs a stored tx
 ConfirmGood ==
@@ -203,7 +202,7 @@ ConfirmGood ==
           /\ TxExists(hub, c, tx) /\ ~Has(SigsOf(hub, c, tx), v)
           /\ \E by \in {v} \cup {o \in DOMAIN hub.ch[c].ov : hub.ch[c].ov[o] = v} :
                 Do([k |-> "Confirm", i |-> 0, by |-> by, chain |-> c, tx |-> tx, ext |-> hub.ch[c].ve[v], key |-> hub.ch[c].ve[v]])
-    /\ UNCHANGED xw
+    /\ xw' = XwObserve(xw, hub')
 
 Kinds(fam) ==
     CASE fam = "econ"   -> {"Begin", "End", "Send", "Cancel", "ReqBatch", "ExtDeposit", "ExtExec", "ExtMine", "AttestNext"}
